@@ -7,6 +7,7 @@ import (
 	"go/token"
 	"os"
 	"path/filepath"
+	"regexp"
 	"strconv"
 	"strings"
 
@@ -76,7 +77,66 @@ func runGen(repo, outDir string) error {
 	}
 	sb.WriteString("].\n")
 	must(os.WriteFile(filepath.Join(outDir, "Targets.v"), []byte(sb.String()), 0o644))
+
+	// VisitOrder.v: the writer operations of every Visit function of strict-interface.tmpl, in textual order
+	vs, err := scanVisitOrder(repo)
+	if err != nil {
+		return err
+	}
+	sb.Reset()
+	sb.WriteString("(* GENERATED from /repo/pkg/codegen/templates/strict/strict-interface.tmpl on every run. Do not edit. *)\n")
+	sb.WriteString("From Coq Require Import List String.\nFrom V Require Import Model.Writer.\nImport ListNotations.\nLocal Open Scope string_scope.\n\n")
+	sb.WriteString("(* Visit function (ordinal in the template), its Header().Set / WriteHeader / body-write calls in the order of the text *)\n")
+	sb.WriteString("Definition visit_sequences : list (string * list wtoken) := [\n")
+	for i, v := range vs {
+		sep := ";"
+		if i == len(vs)-1 {
+			sep = ""
+		}
+		fmt.Fprintf(&sb, "  (%s, [%s])%s\n", coqLitStr(v.Name), strings.Join(v.Tokens, "; "), sep)
+	}
+	sb.WriteString("].\n")
+	must(os.WriteFile(filepath.Join(outDir, "VisitOrder.v"), []byte(sb.String()), 0o644))
 	return nil
+}
+
+type visitSeq struct {
+	Name   string
+	Tokens []string
+}
+
+var visitStartRE = regexp.MustCompile(`func \(response [^)]*\) Visit[^(]*\(w http\.ResponseWriter\) error \{`)
+var visitTokenRE = regexp.MustCompile(`w\.Header\(\)\.Set\(|w\.WriteHeader\(|w\.Write\(|NewEncoder\(w\)|io\.Copy\(w,|fmt\.Fprint\w*\(w,`)
+
+// scanVisitOrder splits the template at the Visit functions that take an http.ResponseWriter and lists, for each, the
+// calls that set a header (TSet), write the status (TStatus) or write body bytes (TBody) in the order of the text (creating a multipart writer on w writes nothing yet).
+func scanVisitOrder(repo string) ([]visitSeq, error) {
+	b, err := os.ReadFile(filepath.Join(repo, "pkg/codegen/templates/strict/strict-interface.tmpl"))
+	if err != nil {
+		return nil, err
+	}
+	text := string(b)
+	starts := visitStartRE.FindAllStringIndex(text, -1)
+	var out []visitSeq
+	for i, st := range starts {
+		end := len(text)
+		if i+1 < len(starts) {
+			end = starts[i+1][0]
+		}
+		var toks []string
+		for _, m := range visitTokenRE.FindAllString(text[st[1]:end], -1) {
+			switch {
+			case strings.HasPrefix(m, "w.Header"):
+				toks = append(toks, "TSet")
+			case strings.HasPrefix(m, "w.WriteHeader"):
+				toks = append(toks, "TStatus")
+			default:
+				toks = append(toks, "TBody")
+			}
+		}
+		out = append(out, visitSeq{fmt.Sprintf("strict-interface.tmpl#%d", i+1), toks})
+	}
+	return out, nil
 }
 
 var targetEffects = map[string]string{"IrisServer": "EIris", "ChiServer": "EChi", "FiberServer": "EFiber", "EchoServer": "EEcho", "GinServer": "EGin",
